@@ -289,10 +289,51 @@ def check_process_column(res, dump, cols_traces):
             return
 
 
+def check_logs(res, rng):
+    """Log lines: colour never changes the text; a record that names its process and thread is shown under the
+    process the dump declares for that thread (the record itself declares it)."""
+    import plistlib
+    from vlib import logs
+    strings = logs.Strings(rng)
+    raws = []
+    for _ in range(rng.randrange(1, 8)):
+        raw = logs.gen_event(rng, strings, [k for k in ('p', 'pid', 'send') if rng.random() < 0.7])
+        raw['tid'] = rng.choice((0, 11, 12, 4242))
+        raws.append(raw)
+    data = wire.V3Spec(entries=[(11, 100, b'launchd', b''), (12, 200, b'Safari', b'')], chunks=[[]], blocks=[
+        (wire.TAG_LOG_EVENTS, plistlib.dumps({'Events': raws}, fmt=plistlib.FMT_BINARY)),
+        (wire.TAG_LOG_STRINGS, plistlib.dumps(strings.plist(), fmt=plistlib.FMT_BINARY))]).build()
+    case = {'file': data}
+    try:
+        plain = list(front({}, color=False).formatted_logs(io.BytesIO(data)))
+        coloured = list(front({}, color=True).formatted_logs(io.BytesIO(data)))
+    except Exception as x:
+        res.violation(f'c14-logs-raise-{core.exc_name(x)}', f'{x!r}', case)
+        return
+    if len(plain) != len(raws) or len(coloured) != len(raws):
+        res.violation('c14-log-line-count', f'{len(plain)} / {len(coloured)} lines for {len(raws)} records', case)
+        return
+    inv = strings.inverted()
+    for raw, a, b in zip(raws, plain, coloured):
+        res.count('log_lines_checked')
+        if ANSI.sub('', b) != a:
+            res.violation('c14-colour-changes-text', f'log line: plain {a!r} vs coloured {ANSI.sub("", b)!r}', case)
+            return
+        if not a.endswith(inv[raw['cm']]):
+            res.violation('c14-log-body', f'log line {a!r} does not end with its message', case)
+            return
+        if 'p' in raw and inv[raw['p']] and raw['tid']:
+            want = f'{inv[raw["p"]]}({raw.get("pid", 0)})'
+            if want not in a:
+                res.violation('c14-log-process', f'log line {a!r}: the record declares {want} for its thread', case)
+                return
+
+
 def run(ctx):
     res = core.Result()
     rng = ctx.rng
     for i in range(ctx.pick(16, 600)):
+        check_logs(res, rng)
         dump = gen_dump(rng)
         wall = i % 3 == 0
         check_composition(res, dump, 'kevents', KEVENT_SWITCHES, wall)
